@@ -285,8 +285,10 @@ impl MpsModel {
             if lay.numbers == 0 || !v.is_finite() {
                 return format!("{}", v);
             }
-            let s = match rng.below(6) {
+            let s = match rng.below(7) {
                 0 => format!("{}", v),
+                // zero written with a minus sign denotes the same number
+                6 if v == 0.0 => (*rng.pick(&["-0", "-0.0", "-0e0", "-.0"])).to_string(),
                 1 if v == v.trunc() && v.abs() < 1e15 => format!("{:.1}", v),
                 2 => format!("{:e}", v),
                 3 if v >= 0.0 => format!("+{}", v),
